@@ -87,6 +87,25 @@ Proof. exact (@AllocTotal.multistage_terminates). Qed.
 Print Assumptions C09_multistage_terminates.
 End M_C09_multistage_terminates.
 
+(* the offline Mixed schedule concludes: exhausted within N (N + 3) + N + 2 requests *)
+Module M_C09_mixed_terminates.
+Import MixBridge.
+Theorem C09_mixed_terminates :
+  forall (N s : Z) (sg : Actions.storage) (tab : bool) (k : nat),
+         1 <= N ->
+         0 <= s ->
+         (2 <= N -> 1 <= s) ->
+         sg = Actions.RAM \/ sg = Actions.DISK ->
+         N * (N + 3) + N + 1 < Z.of_nat k ->
+         let
+         '(s', m, _) :=
+          Sched.run_ops (pmx N (Z.min s (N - 1)) sg) (sch0 N (Z.min s (N - 1)) sg tab) Sched.mon0
+            (repeat Sched.Next k) in
+          Sched.is_exhausted s' = true /\ Exec.fwd_total (Exec.cnt (Sched.mx m)) = C3 N (Z.min s (N - 1)).
+Proof. exact (@MixBridge.mixed_terminates). Qed.
+Print Assumptions C09_mixed_terminates.
+End M_C09_mixed_terminates.
+
 (* PARTIAL: termination measure of the Multistage machine decreases at every yielded action (so the final action is reached); "each further pass is an exact repeat of the first" is covered by executability for every k above, the literal equality of passes by correspondence + oracle *)
 Module M_C09_multistage_terminates_partial.
 Import MSTerm.
